@@ -189,10 +189,17 @@ def rewrite(path, _depth=0):
                 i += 1
                 continue
             names = [x.strip() for x in code.split(',') if x.strip()]
+            arrs = []
             for nm in names:
                 nm = nm.lstrip('*')
-                mod.ctypes.setdefault(cur_func, {})[nm] = ty
-            out.append(m.group(1) + 'pass')
+                ma = re.match(r'^([A-Za-z_][A-Za-z_0-9]*)\s*\[(.+)\]$', nm)
+                if ma:
+                    # C array on the stack:  cdef double F[6 * 6]
+                    mod.ctypes.setdefault(cur_func, {})[ma.group(1)] = ty + '[]'
+                    arrs.append('%s = CARRAY(%s)' % (ma.group(1), ma.group(2)))
+                else:
+                    mod.ctypes.setdefault(cur_func, {})[nm] = ty
+            out.append(m.group(1) + ('; '.join(arrs) if arrs else 'pass'))
             cont = code.rstrip().endswith(',')
             i += 1
             # NOTE: in compmech a trailing comma is followed by a *new* cdef line,
